@@ -1,4 +1,5 @@
-"""C09 — len(m) = |bytes(m)|, dump writes exactly bytes(m): correspondence (T2) + oracle."""
+"""C09 — len(m) = |bytes(m)|, dump writes exactly bytes(m): source-translation tie of the helpers (non-alarming, recorded only),
+correspondence (T2) + oracle."""
 import io
 
 from .. import lib, msggen
@@ -24,6 +25,102 @@ RULE = ("messages of a systematic schema (every scalar kind x {plain, optional, 
         "Timestamp/Duration, field numbers at every tag-size boundary) and of random schemas; values from boundary/typical/out-of-range classes, "
         "containers of length 0..5, unknown fields injected through parse(); built by constructor kwargs and attribute assignment. "
         "non-trivial = encodes to at least one byte; distinct = distinct (class, encoded bytes)")
+
+
+# --------------------------------------------------------------------------------------------------------------------
+# Source-translation tie (second, tighter tie for the size-side / write-side helpers; NON-ALARMING on its own).
+#   harness/gen_c09_src.py (an extension of harness/gen_c16_src.py) translates the CURRENT source text of _preprocess_single /
+#   _len_preprocessed_single / _serialize_single / _len_single into coq/gen/C09Src.v (two parts: "preprocess", "single");
+#   Proofs/C09SrcPre.v / C09Src.v prove the translation equal to the hand-written model (preprocess_with / len_preprocessed_with /
+#   serialize_with / len_single_with) and restate the agreement of the two walks over the translated source;
+#   Properties/C09SrcPre.v / C09Src.v state it.  These files are NOT among the
+#   targets of the main build (EXTRA_TARGETS): a behaviour-preserving rewrite of the Python functions may make the translator
+#   reject or the proof scripts fail while C09 still holds.  So this stage only RECORDS whether the tie held (evidence:
+#   input_distribution "source_tie:*", coverage.source_translation_tie, an assumptions line, the theorems + Print Assumptions
+#   verdicts when it held) and NEVER calls ctx.fail: when it does not hold, the sampled correspondence and the oracles below
+#   decide, as before.
+# --------------------------------------------------------------------------------------------------------------------
+SRC_TIE_PARTS = [
+    ("preprocess", "C09SrcPre.v", "the scalar arms of _preprocess_single / _len_preprocessed_single"),
+    ("single", "C09Src.v", "_serialize_single / _len_single (they call the two above)"),
+]
+
+
+class _AuditSink:
+    """lib.audit stores its result in `.proof` of whatever it is given; keeps the main ctx.proof untouched"""
+    proof = None
+
+
+def source_tie_stage(ctx):
+    import os
+    import re
+
+    report = {"translator": None, "parts": {}}
+    ctx.cov["source_translation_tie"] = report
+    lines = []
+    gen = os.path.join(lib.VERIF, "harness", "gen_c09_src.py")
+    try:
+        # (a) the translator's verdict on the current source (dry run: writes nothing; setup.sh below regenerates gen/C09Src.v
+        #     and gen/C16Src.v, which it imports, under the build lock)
+        rc, out = lib.run([lib.PY, gen, "--dry-run"], timeout=300, cwd=lib.VERIF)
+        # the translator's own regression snippets (constructs outside the subset must be rejected): a translator that
+        # fails them is not trusted to tie anything
+        src, sout = lib.run([lib.PY, gen, "--selftest"], timeout=300, cwd=lib.VERIF)
+        sl = [l for l in sout.strip().splitlines() if "WARNING conda" not in l]
+        report["translator_selftest"] = sl[-1][:200] if sl else "no output"
+        ctx.count("source_tie:translator_selftest_ok", 1 if src == 0 else 0)
+        verdicts = {}
+        for l in ([] if src != 0 else out.splitlines()):
+            m = re.match(r"C09SRC-TRANSLATION-(OK|REJECTED): (\w+)(?:: (.*))?$", l)
+            if m:
+                verdicts[m.group(2)] = (m.group(1) == "OK", m.group(3) or "")
+        report["translator"] = {k: {"accepted": ok, "message": why or "accepted"} for k, (ok, why) in verdicts.items()}
+        for key, prop_file, what in SRC_TIE_PARTS:
+            part = {"what": what, "held": False, "reason": None, "theorems": []}
+            report["parts"][key] = part
+            ok, why = verdicts.get(key, (False, "translator self-test failed" if src != 0 else "no verdict from the translator: " + out.strip()[-300:]))
+            ctx.count(f"source_tie:{key}_translated", 1 if ok else 0)
+            if not ok:
+                part["reason"] = "translator rejected the current source (construct outside its subset): " + why
+            else:
+                brc, bout = lib.run([os.path.join(lib.VERIF, "setup.sh"), "Properties/" + prop_file + "o"], timeout=1500, cwd=lib.VERIF)
+                if brc != 0:
+                    err = re.findall(r'File "[^"]*", line \d+[^\n]*\n(?:[^\n]*\n){0,6}', bout)
+                    part["reason"] = ("gen/C09Src.v (or gen/C16Src.v, which it imports) or the proofs do not compile against the current source "
+                                      "(the proof scripts are tied to the shape of the code): " + (err[0] if err else bout[-600:]).strip()[:900])
+                else:
+                    sink = _AuditSink()
+                    pr = lib.audit(sink, prop_file)
+                    part["theorems"] = pr["theorems"]
+                    if pr["problems"] or pr["discharged"] != pr["obligations"] or not pr["obligations"]:
+                        part["reason"] = "audit of Properties/%s: %s" % (prop_file, "; ".join(pr["problems"])[:600] or "no theorem")
+                    else:
+                        part["held"] = True
+                        part["print_assumptions"] = "all %d theorems closed under the global context" % pr["obligations"]
+                        # the audit of the main file must have succeeded for the merged counts to mean anything
+                        if ctx.proof and not ctx.proof.get("problems") and ctx.build_ok:
+                            ctx.proof["obligations"] += pr["obligations"]
+                            ctx.proof["discharged"] += pr["discharged"]
+                            ctx.proof["theorems"] = list(ctx.proof["theorems"]) + pr["theorems"]
+                            ctx.proof["verdicts"] = list(ctx.proof["verdicts"]) + pr["verdicts"]
+            ctx.count(f"source_tie:{key}_held", 1 if part["held"] else 0)
+            lines.append(f"{key} ({what}): " + ("HELD, %d theorems of Properties/%s closed" % (len(part["theorems"]), prop_file) if part["held"]
+                                                 else "DID NOT HOLD on this tree - " + str(part["reason"])[:400]))
+    except Exception as e:  # noqa  - this stage must never decide the check
+        report["stage_error"] = repr(e)[:500]
+        lines.append("stage could not complete: " + repr(e)[:300])
+        for key, _, _ in SRC_TIE_PARTS:
+            if key not in report["parts"] or not report["parts"][key].get("held"):
+                ctx.dist.setdefault(f"source_tie:{key}_held", 0)
+    held_all = all(report["parts"].get(k, {}).get("held") for k, _, _ in SRC_TIE_PARTS)
+    ctx.src_tie_line = ("source-translation tie (harness/gen_c09_src.py -> coq/gen/C09Src.v, proved equal to the model in Properties/C09SrcPre.v, C09Src.v; "
+                        "the TYPE_MESSAGE arm of the two *_preprocess* helpers is delegated to the hand-written model, struct.pack is the model's "
+                        "pack_value, a dynamic value is classified by its Python type alone): "
+                        + "; ".join(lines)
+                        + (". Where it did not hold the check FELL BACK to the sampled correspondence and the oracles (no verdict is drawn "
+                           "from a failed translation or a failed equality proof)." if not held_all else ""))
+    ctx.notes.append(ctx.src_tie_line)
+    return report
 
 
 def outcome(f, conv):
@@ -130,6 +227,9 @@ def length_cases(s):
 
 def run(ctx):
     import betterproto as bp
+
+    source_tie_stage(ctx)
+
     rng = ctx.rng
     matrix = msggen.matrix_schema()
     for what, cname, kw in CORPUS:
@@ -272,10 +372,22 @@ def run(ctx):
 
 
 def finish(ctx):
+    tie = ctx.cov.get("source_translation_tie") or {}
+    held = [k for k, p in (tie.get("parts") or {}).items() if p.get("held")]
+    assumptions = list(ASSUMPTIONS) + [getattr(ctx, "src_tie_line", "source-translation tie: stage not run")]
+    trusted = list(TRUSTED)
+    if held:
+        trusted.append("source-translation tie (held for: " + ", ".join(held) + "): the translator harness/gen_c09_src.py on top of harness/gen_c16_src.py "
+                       "(Python `ast`, fail-closed, accepted subsets documented in their headers) and the semantics of the Python operations they target, "
+                       "coq/Model/C16SrcLib.v + coq/Model/C09SrcLib.v (ints as Z, bytes as lists, proto_type as one of the 18 type names, a dynamic value "
+                       "classified by its Python type, struct.pack = the model's pack_value, the TYPE_MESSAGE arm delegated to the model, exceptions by "
+                       "class only); for the parts that held (preprocess = scalar arms of _preprocess_single / _len_preprocessed_single, single = "
+                       "_serialize_single / _len_single) the hand-written model is no longer trusted beyond that: it is PROVED equal to the translation")
     return lib.finish(
         ctx, "proof",
-        "Coq theorems over a Gallina mirror of Message.dump / __len__ (two separate walks) + executable correspondence (vm_compute) with the implementation",
-        ASSUMPTIONS, TRUSTED, RULE,
+        "Coq theorems over a Gallina mirror of Message.dump / __len__ (two separate walks) + executable correspondence (vm_compute) with the implementation"
+        + ("; the size-side / write-side helpers additionally tied by mechanical source translation proved equal to the model" if held else ""),
+        assumptions, trusted, RULE,
         extra_cov={"explanation": "theorems are unbounded (all schemas, all object states); the correspondence samples schemas and values"})
 
 
